@@ -68,6 +68,10 @@ def quiet():
 
 
 def version_obj(v):
+    """10*major + minor; numbers from 1000 on are 1000*major + minor (protocol versions whose minor number has two or
+    more digits, e.g. 1010 = 1.10, 1100 = 1.100 - never supported, but a client may send them)"""
+    if v >= 1000:
+        return contents.ProtocolVersion(v // 1000, v % 1000)
     return contents.ProtocolVersion(v // 10, v % 10)
 
 
